@@ -102,6 +102,18 @@ func c14Run(tier string, seed int64, idx int) *core.Result {
 			rpcN++
 			tag := fmt.Sprintf("r%d-%d-%d", idx, round, i)
 			oc := c14Outcomes[r.Intn(len(c14Outcomes))]
+			// A handler that returns while its caller keeps sending must not share a round with
+			// other live streams (no flow control: resets for the late bodies queue behind unread
+			// responses and the mix can deadlock by construction); such rounds hold only those
+			// streams and unary calls.
+			abandonRound := round%3 == 2
+			isAbandon := oc == "stream-server-reset" || oc == "stream-early-return"
+			isStream := len(oc) > 6 && oc[:6] == "stream"
+			if abandonRound && isStream && !isAbandon {
+				oc = "stream-early-return"
+			} else if !abandonRound && isAbandon {
+				oc = "stream-ok"
+			}
 			if oc == "unary-cancel" || oc == "unary-deadline" {
 				// their handlers stay parked until the round is over; the server has 8 unary
 				// workers per connection, so at most 4 per round may be held
@@ -251,6 +263,11 @@ func c14One(cc grpc.ClientConnInterface, b *bed.Bed, gates *Gates, tag, outcome 
 				hops = append(hops, Op{Op: "ret", Err: herr})
 			}
 			cops = []Op{{Op: "send", N: 2 + k, Size: 17}, {Op: "closeSend"}, {Op: "recvAll"}}
+		}
+		if kind == "server" && len(hops) > 0 && hops[0].Op == "recv" {
+			// the handler bursts only once the caller's open (Send + CloseSend) has returned
+			hops = append([]Op{hops[0], {Op: "gate", Gate: "go/" + tag}}, hops[1:]...)
+			cops = append([]Op{{Op: "openGate", Gate: "go/" + tag}}, cops...)
 		}
 		b.Impl.SetStream(tag, func(t, kd string, ss grpc.ServerStream) error { return runHandlerProg(ss, t, hops, hrec, gates) })
 		cr := StartClient(m, m.Cancel, m.Fire, cc, kind, tag, []byte("q"), cops, nil, gates, nil, nil)
